@@ -10,6 +10,16 @@ from . import common
 
 ID = 'C11'
 LEVEL = 'exploration'
+# scenario variants and fault kinds mixed into the seeded part (reported in
+# the evidence; DESIGN 14.6 says where each came from)
+VARIANTS = [
+    "kick (FIN or RST) with failing sends",
+    "slow listener",
+    "listener-queued bursts of 60..3000 packets",
+    "packet sizes at the threshold, thresholds equal to a keep-alive packet",
+    "mid-frame stalls of 15..400 s",
+    "every chat-component shape of the disconnect reason"
+]
 RUNS = {'quick': 3000, 'thorough': 120000}
 WALL_CAP = {'quick': 200, 'thorough': 3300}
 
